@@ -160,6 +160,93 @@ Proof.
 Qed.
 End Listen.
 
+(* ----- the selection of the TLS contexts, then the listener (gen_boot) ----- *)
+Definition opt_truthy (o : option pathlike) : bool := match o with Some v => pathlike_truthy v | None => false end.
+Definition opt_path_str (o : option pathlike) : str := match o with Some v => pathlike_str v | None => lit "None" end.
+
+Section Boot.
+Context {T_router A_route T_sslctx T_pyctx U : Type}.
+Variables (attr_route : T_router -> A_route)
+          (o_server : str -> str -> bool -> T_sslctx) (o_self_signed : bool -> T_sslctx)
+          (o_pyopenssl : str -> str -> bool -> T_pyctx) (o_self_signed_pyopenssl : unit -> T_pyctx)
+          (config : py_ServerConfig) (router : T_router).
+
+Definition has_cert_files : bool := opt_truthy (ServerConfig_certfile config) && opt_truthy (ServerConfig_keyfile config).
+Definition cert_text : str := opt_path_str (ServerConfig_certfile config).
+Definition key_text : str := opt_path_str (ServerConfig_keyfile config).
+
+Definition chosen_builder : string :=
+  if uses_pyopenssl config
+  then (if has_cert_files then "create_pyopenssl_server_context" else "_create_self_signed_pyopenssl_context")
+  else (if has_cert_files then "create_server_context" else "_create_self_signed_context").
+Definition chosen_pyctx : option T_pyctx :=
+  if uses_pyopenssl config
+  then Some (if has_cert_files then o_pyopenssl cert_text key_text true else o_self_signed_pyopenssl tt)
+  else None.
+Definition chosen_sslctx : option T_sslctx :=
+  if uses_pyopenssl config
+  then None
+  else Some (if has_cert_files then o_server cert_text key_text false else o_self_signed false).
+
+Definition booted := gen_boot (U_upload := U) attr_route o_server o_self_signed o_pyopenssl o_self_signed_pyopenssl
+                              config en rl ac ca router.
+
+Lemma boot_tie :
+  booted = (mws, chain, EffBuild chosen_builder ::
+            snd (started (U := U) attr_route config router chosen_sslctx chosen_pyctx)).
+Proof.
+  rewrite start_tie. cbn [snd]. rewrite setup_effects_tie.
+  unfold booted, expected_listener, app_factory, chain, mws, chosen_builder, chosen_pyctx, chosen_sslctx, has_cert_files,
+         cert_text, key_text, opt_truthy, opt_path_str, uses_pyopenssl, gen_boot.
+  assert (E : forall c : py_CertificateAuthConfig,
+    (if existsb (fun rule => CertificateAuthPathRule_require_cert rule ||
+                   negb match CertificateAuthPathRule_allowed_fingerprints rule with None => true | Some _ => false end)
+          (CertificateAuthConfig_path_rules c) then true else false) =
+    existsb (fun r => CertificateAuthPathRule_require_cert r || is_some (CertificateAuthPathRule_allowed_fingerprints r))
+            (CertificateAuthConfig_path_rules c)).
+  { intro c. rewrite (existsb_if _ (fun r => CertificateAuthPathRule_require_cert r || is_some (CertificateAuthPathRule_allowed_fingerprints r))).
+    - destruct (existsb _ _); reflexivity.
+    - intro x. destruct (CertificateAuthPathRule_allowed_fingerprints x); reflexivity. }
+  destruct ca as [c|].
+  - rewrite E. destruct (ServerConfig_require_client_cert config || existsb _ _);
+      destruct (ServerConfig_certfile config) as [p|]; destruct (ServerConfig_keyfile config) as [q|];
+      try destruct (pathlike_truthy p); try destruct (pathlike_truthy q); destruct en, ac; reflexivity.
+  - destruct (ServerConfig_require_client_cert config || false);
+      destruct (ServerConfig_certfile config) as [p|]; destruct (ServerConfig_keyfile config) as [q|];
+      try destruct (pathlike_truthy p); try destruct (pathlike_truthy q); destruct en, ac; reflexivity.
+Qed.
+
+(* exactly one builder is called: the one for (client certificates requested?) x (certfile and keyfile given?) *)
+Lemma context_choice : builds (snd booted) = [chosen_builder].
+Proof.
+  rewrite boot_tie, start_tie. cbn [snd]. rewrite setup_effects_tie. unfold expected_listener.
+  destruct en, (if uses_pyopenssl config then chosen_pyctx else None); reflexivity.
+Qed.
+
+(* the single listener is TLS-protected: the PyOpenSSL wrapper with the context just built, or ssl= the context just built *)
+Lemma listener_protection : exists f, listen_factories (snd booted) = [f] /\
+  app_proto (f tt) = (attr_route router, chain, None) /\
+  is_tls_wrapped (f tt) = uses_pyopenssl config /\
+  (uses_pyopenssl config = true -> exists ctx, chosen_pyctx = Some ctx /\ f tt = PTls (app_factory (U := U) attr_route router) ctx) /\
+  listen_ssl (snd booted) = [chosen_sslctx] /\
+  (uses_pyopenssl config = false -> exists ctx, chosen_sslctx = Some ctx).
+Proof.
+  rewrite boot_tie, start_tie. cbn [snd]. rewrite setup_effects_tie.
+  unfold expected_listener, app_factory, chosen_pyctx, chosen_sslctx.
+  destruct (uses_pyopenssl config), en; eexists; repeat split; try reflexivity; intro H; try discriminate H; eexists; try split; reflexivity.
+Qed.
+
+Lemma no_plaintext_listener : exists f s, listen_factories (snd booted) = [f] /\ listen_ssl (snd booted) = [s] /\
+  ((exists inner ctx, f tt = PTls inner ctx) \/ (exists ctx, s = Some ctx /\ is_tls_wrapped (f tt) = false)).
+Proof.
+  destruct listener_protection as [f [Hf [_ [Hw [Hpy [Hs Hssl]]]]]].
+  exists f, chosen_sslctx. split; [exact Hf|]. split; [exact Hs|].
+  destruct (uses_pyopenssl config) eqn:U0.
+  - left. destruct (Hpy eq_refl) as [ctx [_ E]]. eexists. exists ctx. exact E.
+  - right. destruct (Hssl eq_refl) as [ctx E]. exists ctx. split; [exact E|exact Hw].
+Qed.
+End Boot.
+
 (* ----- composition with MiddlewareChain.process_request (PyGen.gen_chain_process) ----- *)
 Definition verdict : Type := bool * option str.
 Definition run_opt (sem : mwkind -> str -> str -> option str -> verdict) (m : option mwkind) (url ip : str) (fp : option str) : verdict :=
